@@ -49,7 +49,8 @@ class CFG:
                 else:
                     s = " ".join(b)
                 nsym = len(b) + (1 if k == "error" else 0)
-                if a is not None and k != "empty":
+                # an empty alternative may carry an action too ( empty << ... >> : the action runs with no attributes )
+                if a is not None:
                     args = []
                     for j in range(nsym):
                         sym = (["error"] + b)[j] if k == "error" else b[j]
@@ -67,7 +68,7 @@ class CFG:
 
     def has_action(self, i):
         (l, b, k, a) = self.prods[i]
-        return a is not None and k != "empty"
+        return a is not None
 
     def has_error(self):
         return any(k == "error" for (_, _, k, _) in self.prods)
@@ -168,7 +169,7 @@ def add_optionals(g, rng):
     for name in opts:
         nts.append(name)
         prods.append((name, [rng.choice(g.terms)], "normal", rng.choice([None, "N"])))
-        prods.append((name, [], "empty", None))
+        prods.append((name, [], "empty", rng.choice([None, None, "N"])))
     return CFG(nts, list(g.terms), prods)
 
 
@@ -184,7 +185,7 @@ FAMILIES = [
       ("L", ["L", '","', "I"], "normal", "N"), ("I", ["id"], "normal", "T"), ("I", [], "empty", None)]),
     # nested optionals, right recursion
     (["S", "A", "B"], ["a", "b", "c"],
-     [("S", ["A", "B", "c"], "normal", "NC"), ("A", ["a", "A"], "normal", "N"), ("A", [], "empty", None),
+     [("S", ["A", "B", "c"], "normal", "NC"), ("A", ["a", "A"], "normal", "N"), ("A", [], "empty", "N"),
       ("B", ["b"], "normal", None), ("B", [], "empty", None)]),
     # dangling else (shift/reduce)
     (["S", "St"], ['"if"', "e", '"x"', "c"],
